@@ -229,6 +229,37 @@ def impure_pairs(r, tier):
     return out
 
 
+def scope_pairs(r, tier):
+    """val names and scoping: [(label, source with vals, the same program with every val supplied through a variable of its
+    own name)].  A local val or var hides a global val from its declaration on; its own initialiser and earlier local
+    declarations still see the global; formals hide globals; another procedure still sees the global."""
+    out = []
+    vals = [(5, 1), (65535, 1), (65536, 7), (3, 65536)] if tier == "quick" else [(a, b) for a in (0, 5, 65535, 65536, 70000) for b in (1, 7, 65536)]
+    for a, b in vals:
+        out.append((f"local val initialised from the global it hides A={a} B={b}",
+                    f"val n = {a};\nproc main() is\n  val n = n + {b};\n  0(n)\n",
+                    f"var gn;\nproc main() is\n  var ln;\n{{ gn := {a}; ln := gn + {b}; 0(ln) }}\n"))
+        out.append((f"earlier local val sees the global, later local val hides it A={a} B={b}",
+                    f"val n = {a};\nproc main() is\n  val m = n + 1;\n  val n = {b};\n  0(m + n)\n",
+                    f"var gn;\nproc main() is\n  var lm;\n  var ln;\n{{ gn := {a}; lm := gn + 1; ln := {b}; 0(lm + ln) }}\n"))
+        out.append((f"earlier local val sees the global, later local VAR hides it A={a} B={b}",
+                    f"val n = {a};\nproc main() is\n  val m = n + 1;\n  var n;\n{{ n := {b}; 0(m + n) }}\n",
+                    f"var gn;\nproc main() is\n  var lm;\n  var ln;\n{{ gn := {a}; lm := gn + 1; ln := {b}; 0(lm + ln) }}\n"))
+        out.append((f"local val in one procedure, global val in the next A={a} B={b}",
+                    f"val n = {a};\nproc p() is\n  val n = {b};\n  1((n = {b}) + '0', 0)\nproc q() is\n  1((n = {a}) + '0', 0)\nproc main() is\n{{ p(); q(); 0(n) }}\n",
+                    f"var gn;\nproc p() is\n  var ln;\n{{ ln := {b}; 1((ln = {b}) + '0', 0) }}\nproc q() is\n  1((gn = {a}) + '0', 0)\nproc main() is\n{{ gn := {a}; p(); q(); 0(gn) }}\n"))
+        out.append((f"formal hides a global val A={a} B={b}",
+                    f"val n = {a};\nfunc f(val n) is return n + 1\nproc main() is\n  0(f({b}) + n)\n",
+                    f"var gn;\nfunc f(val x) is return x + 1\nproc main() is\n{{ gn := {a}; 0(f({b}) + gn) }}\n"))
+        out.append((f"global val used before and after a local val of the same name in nested use A={a} B={b}",
+                    f"val n = {a};\nval k = n + 2;\nproc main() is\n  val j = k + n;\n  val n = j + {b};\n  val k = n + 1;\n  0((j + n) + k)\n",
+                    f"var gn;\nvar gk;\nproc main() is\n  var lj;\n  var ln;\n  var lk;\n{{ gn := {a}; gk := gn + 2; lj := gk + gn; ln := lj + {b}; lk := ln + 1; 0((lj + ln) + lk) }}\n"))
+    out.append(("local val as subscript, global val as array length",
+                "val n = 3;\narray a[n];\nproc main() is\n  val n = 1;\n{ a[n] := 7; a[0] := 2; 0((a[n] + n) + a[0]) }\n",
+                "array a[3];\nproc main() is\n  var ln;\n{ ln := 1; a[ln] := 7; a[0] := 2; 0((a[ln] + ln) + a[0]) }\n"))
+    return out
+
+
 def behaviour(o):
     f = o.split(" ")
     if f[0] != "ok":
@@ -372,7 +403,7 @@ def run(tier, seed, replay=None):
         rep.violation("proof", {"broken": problems}, no_input=not prop_bad)
 
     # placements with an impure operand: constant written out vs supplied through a variable
-    pairs = impure_pairs(r, tier) if not replay else []
+    pairs = (impure_pairs(r, tier) + scope_pairs(r, tier)) if not replay else []
     if replay and "source_const" in json.load(open(replay)):
         cs = json.load(open(replay))
         pairs = [(cs.get("label", "replay"), cs["source_const"], cs["source_var"])]
